@@ -504,6 +504,7 @@ func runBatchCheck(bc *BatchCheck, tier string) *evid.Report {
 	wg.Wait()
 
 	// 5. fold
+	exercised := map[string]bool{}
 	for _, it := range built {
 		cr := results[it.caseID]
 		if cr == nil {
@@ -535,6 +536,9 @@ func runBatchCheck(bc *BatchCheck, tier string) *evid.Report {
 		}
 		r.TracesImpl += n
 		r.State(it.hash, n > 0)
+		for _, fn := range cr.Sets["functions-exercised"] {
+			exercised[fn] = true
+		}
 		// C15 "varies": decided on the union of the shards' observations
 		for k, set := range cr.Sets {
 			if tn, ok := strings.CutPrefix(k, "distinct:"); ok {
@@ -566,6 +570,18 @@ func runBatchCheck(bc *BatchCheck, tier string) *evid.Report {
 	r.Extra["counters"] = counts
 	r.Extra["programs"] = len(items)
 	r.Extra["programs_in_batch"] = len(built)
+	if len(exercised) > 0 {
+		var l []string
+		for fn := range exercised {
+			l = append(l, fn)
+		}
+		sort.Strings(l)
+		r.Extra["generated_functions_exercised_count"] = len(l)
+		if len(l) > 120 {
+			l = l[:120]
+		}
+		r.Extra["generated_functions_exercised"] = l
+	}
 	if bc.Mode == "c05" {
 		// the model-checking state space of C05 is the set of database states reached by the BFS
 		r.StatesN = counts["states"]
